@@ -148,3 +148,11 @@ package hamt
 
 //@ func hamt.NewUnixFSHAMTShardWithPreload
 //@ ensures any-load-failure-fails-the-preload: err == nil ==> loadFailed == old(loadFailed)
+
+// Behavioural subtyping: these node types are maps / byte strings, never lists, so they answer
+// Kind() with a non-list kind and have no list iterator (the datamodel.Node interface contract
+// for both methods is checked here under that stated domain).
+//@ func (*hamt._UnixFSHAMTShard).Kind
+//@ domain not-a-list: !isList(n)
+//@ func (*hamt._UnixFSHAMTShard).ListIterator
+//@ domain not-a-list: !isList(n)
